@@ -557,4 +557,14 @@ PROPS["C06"]["parts"] = [
 ]
 PROPS["C06"]["level_text"] += " In addition the real client+server explorations of the configuration grid under every single fate deviation (one and two clients, ASan build), the relay family of C11 (handshakes through 1 184 transforming relays) and the login-reply enumeration of C13 are re-run with the sanitizers as the only oracle for the client."
 PROPS["C01"]["level_text"] += " The two-client part also has succession cells: client A is cut off (killed) in the middle of a multi-fragment packet in each direction, 65 s later client B logs in, inherits A's slot and tunnel address, and its traffic is judged like any other (clean path and every single deviation)."
+PROPS["C02"]["parts"] = [
+    {"name": "ea", "harness": "ea.c", "flavor": "ubsan", "images": (("s", "server"), ("ca", "client")), "args": ["--prop", "C02"]},
+    dict(_TWO, args=["--prop", "C02"]),
+]
+PROPS["C02"]["level_text"] += " A second part applies the clean-path oracle to the two-client exploration (client-to-client packets, bursts from the server's tun that fill one client's queue while the other is idle, and a second session that inherits a dead client's slot)."
+PROPS["C11"]["parts"] = [
+    {"name": "ea", "harness": "ea.c", "flavor": "ubsan", "images": (("s", "server"), ("ca", "client")), "args": ["--prop", "C11"]},
+    dict(_TWO, args=["--prop", "C11"]),
+]
+PROPS["C11"]["level_text"] += " A second part runs the succession cells of the two-client harness: a first client negotiates on a clean path and dies, and the client under test then negotiates through a case-folding relay in the slot the first one left behind; what it settled on must carry its packets."
 
